@@ -296,6 +296,7 @@ func (s *SelectStatement) ToStreamConfig() (*types.Config, string, error) {
 			TriggerCondition: s.Window.TriggerCondition,
 			SelectFields:     aggs,
 			FieldAlias:       fields,
+			FieldExpressions: expressions,
 		},
 		GroupFields:        extractGroupFields(s),
 		SelectFields:       aggs,
